@@ -39,6 +39,7 @@ Fixpoint gv_plain (g : gv) : bool :=
   | GArr l => (len l <? two64) && (fix all (l : list gv) : bool := match l with [] => true | y :: r => gv_plain y && all r end) l
   | GMap l => (len l <? two64) && (fix all (l : list gv) : bool := match l with [] => true | y :: r => gv_plain y && all r end) l
   | GTag t c => (0 <=? t) && (t <? two64) && gv_plain c
+  | GFloat b => (0 <=? b) && (b <? two64)
   | _ => false
   end.
 
@@ -129,6 +130,19 @@ Proof.
   induction 1 as [|w l [Hw Hc] Hl [IH1 IH2]]; cbn; auto. rewrite Hw, Hc, IH1, IH2. auto.
 Qed.
 
+(* float64 (ShortestFloatNone, NaN -> f9 7e00, infinities -> half precision): the four shapes of the output *)
+Lemma enc_float_ser b :
+  (enc_float b = ser (WSim W2 32256) /\ is_nan64 b = true) \/
+  (enc_float b = ser (WSim W2 31744) /\ is_nan64 b = false /\ b = 2047 * 2 ^ 52) \/
+  (enc_float b = ser (WSim W2 64512) /\ is_nan64 b = false /\ b = 2 ^ 63 + 2047 * 2 ^ 52) \/
+  (enc_float b = ser (WSim W8 b) /\ is_nan64 b = false /\ b <> 2047 * 2 ^ 52 /\ b <> 2 ^ 63 + 2047 * 2 ^ 52).
+Proof.
+  unfold enc_float. destruct (is_nan64 b) eqn:En; [left; split; reflexivity|].
+  destruct (b =? 2047 * 2 ^ 52) eqn:E1; [apply Z.eqb_eq in E1; right; left; repeat split; auto|].
+  destruct (b =? 2 ^ 63 + 2047 * 2 ^ 52) eqn:E2; [apply Z.eqb_eq in E2; right; right; left; repeat split; auto|].
+  apply Z.eqb_neq in E1. apply Z.eqb_neq in E2. right; right; right. repeat split; auto.
+Qed.
+
 Theorem enc_canonical : forall kb g, encodes kb g.
 Proof.
   intros kb. induction g using gv_ind'; unfold encodes; intros out Hp He; cbn [gv_plain] in Hp; try discriminate.
@@ -182,6 +196,11 @@ Proof.
     split; cbn; [rewrite Gw, andb_true_r; apply minw_fits; lia|rewrite width_eqb_refl, Cw; reflexivity].
   - (* GBStr *) cbn [enc] in He. inversion He; subst. exists (tbstr b). split; [reflexivity|].
     apply andb_true_iff in Hp as [H1 H2]. split; [apply tbstr_wf; split; auto; lia|cbn; apply width_eqb_refl].
+  - (* GFloat *) cbn [enc] in He. inversion He; subst. apply andb_true_iff in Hp as [H1 H2].
+    destruct (enc_float_ser b) as [(-> & _)|[(-> & _)|[(-> & _)|(-> & _)]]];
+      [exists (WSim W2 32256)|exists (WSim W2 31744)|exists (WSim W2 64512)|exists (WSim W8 b)];
+      (split; [reflexivity|]); split; try reflexivity.
+    cbn [wf sim_ok fits]. unfold two64 in *. lia.
 Qed.
 
 (* C08: whatever the encoder returns for such a value parses back to exactly one canonical tree *)
